@@ -300,7 +300,7 @@ def build_storage_unit(cfg, n, outdir, extra_sidecar=None, tail_text=None, unit=
                 props[k] = s
     for f in gen.fns:
         s = props.get(f['key'])
-        f['props'] = list(s.props) if s else []
+        f['props'] = list(s.props) if s else list(gen.linemap[f['sig_line'] - 1][1])
         f['contract'] = bool(s)
         f['external'] = bool(s and s.kind == 'externbody')
     gen.panic_hits = dict(table.hits)
